@@ -154,13 +154,20 @@ Definition probe_covers (l : list (N * option N)) : bool :=
 Lemma spsid_probes : probe_covers impl_spsid = true. Proof. vm_compute. reflexivity. Qed.
 Lemma ppsid_probes : probe_covers impl_ppsid = true. Proof. vm_compute. reflexivity. Qed.
 
+Lemma id_ok_spec limit x r : id_ok limit (x, r) = true ->
+  (r = Some x /\ x <= limit) \/ (r = None /\ limit < x).
+Proof.
+  unfold id_ok. destruct r as [y|]; intros H.
+  - left. apply andb_prop in H. destruct H as [H1 H2].
+    apply N.leb_le in H1. apply N.eqb_eq in H2. subst. split; [reflexivity|assumption].
+  - right. apply N.ltb_lt in H. split; [reflexivity|assumption].
+Qed.
+
 Lemma id_wrappers : forall x r,
   (In (x, r) impl_spsid -> (r = Some x /\ x <= 31) \/ (r = None /\ 31 < x)) /\
   (In (x, r) impl_ppsid -> (r = Some x /\ x <= 255) \/ (r = None /\ 255 < x)).
 Proof.
   intros x r. split; intros Hin.
-  - pose proof spsid_sweep as H. rewrite forallb_forall in H. specialize (H _ Hin). cbn in H.
-    destruct r as [y|]; [left|right]; split; try lia. f_equal. lia.
-  - pose proof ppsid_sweep as H. rewrite forallb_forall in H. specialize (H _ Hin). cbn in H.
-    destruct r as [y|]; [left|right]; split; try lia. f_equal. lia.
+  - pose proof spsid_sweep as H. rewrite forallb_forall in H. exact (id_ok_spec 31 x r (H _ Hin)).
+  - pose proof ppsid_sweep as H. rewrite forallb_forall in H. exact (id_ok_spec 255 x r (H _ Hin)).
 Qed.
